@@ -11,6 +11,7 @@ import (
 	"hash/fnv"
 	"os"
 	"path/filepath"
+	"runtime"
 	"runtime/debug"
 	"sort"
 	"strconv"
@@ -492,3 +493,7 @@ func quoteShort(s string) string {
 	}
 	return fmt.Sprintf("%q", s)
 }
+
+func runtimeStack(buf []byte) int { return runtime.Stack(buf, false) }
+
+func globFiles(pattern string) ([]string, error) { return filepath.Glob(pattern) }
